@@ -90,12 +90,12 @@ func (r *Runner) Run() error {
 
 // FactoryPP: a user ComponentFactoryPostProcessor / DefinitionRegistryPostProcessor that can be told to fail.
 type FactoryPP struct {
+	zoo.Core
 	failFactory bool
 	rejectName  string
 	fired       *int
 }
 
-func (f *FactoryPP) Naming() string { return "factory-pp" }
 func (f *FactoryPP) PostProcessComponentFactory(factory container.Factory) error {
 	if f.failFactory {
 		*f.fired++
@@ -138,6 +138,7 @@ type Base struct {
 	Obs      int
 	EmptyCfg bool
 	QPair    bool
+	ObsKind  int
 }
 
 func (b *Base) String() string {
@@ -284,9 +285,29 @@ func build(b *Base, faults []Site) *built {
 			}
 		}
 		bu.obs = append(bu.obs, o)
-		in.Extra = append(in.Extra, o)
+		switch (k + b.ObsKind) % 3 {
+		case 1:
+			o.OrderV = 1 // ordered, ahead of the built-in wiring processors
+			in.Extra = append(in.Extra, &graph.OrderedObsPP{ObsPP: *o})
+			bu.obs[len(bu.obs)-1] = &in.Extra[len(in.Extra)-1].(*graph.OrderedObsPP).ObsPP
+		case 2:
+			o.OrderV = 1 // priority-ordered, ahead of the built-in configuration processors
+			in.Extra = append(in.Extra, &graph.PriorityObsPP{ObsPP: *o})
+			bu.obs[len(bu.obs)-1] = &in.Extra[len(in.Extra)-1].(*graph.PriorityObsPP).ObsPP
+		default:
+			in.Extra = append(in.Extra, o)
+		}
 	}
 	fpp := &FactoryPP{fired: &bu.fired}
+	fpp.B = &zoo.Beh{Alias: "factory-pp", Mask: "m0"}
+	for _, f := range faults {
+		if f.Kind == "init" && f.A == 2000 {
+			fpp.B.FailInit = zoo.FailAlways
+		}
+		if f.Kind == "aps" && f.A == 2000 {
+			fpp.B.FailAPS = zoo.FailAlways
+		}
+	}
 	for _, f := range faults {
 		switch f.Kind {
 		case "factory-pp":
@@ -295,7 +316,7 @@ func build(b *Base, faults []Site) *built {
 			fpp.rejectName = f.Name
 		}
 	}
-	in.Extra = append(in.Extra, fpp)
+	addExtra(fpp, fpp.B)
 	for j := 0; j < b.Loaders; j++ {
 		l := &FLoader{fired: &bu.fired}
 		if j == 0 {
@@ -354,7 +375,8 @@ func sites(b *Base) []Site {
 	for j := 0; j < b.Loaders; j++ {
 		out = append(out, Site{Kind: "loader", A: j})
 	}
-	out = append(out, Site{Kind: "factory-pp"})
+	out = append(out, Site{Kind: "factory-pp"}, Site{Kind: "init", A: 2000}, Site{Kind: "aps", A: 2000})
+	names = append(names, "factory-pp")
 	if b.QPair {
 		out = append(out, Site{Kind: "unsat-qual"})
 		names = append(names, "q-holder", "q-dep")
@@ -485,6 +507,17 @@ func decide(t fataler, b *Base, faults []Site) {
 				t.Fatalf("C09: runner %d ran %d times in a clean start\n%s", id, bh.RunCalls, desc)
 			}
 		}
+		// a clean start really went through every eager component's initialisation
+		must, _ := g.Created()
+		for _, c := range all {
+			n, ok := c.(zoo.INode)
+			if !ok {
+				continue
+			}
+			if mc := g.Find(c); mc != nil && must[mc] && n.Beh().InitCalls != 1 {
+				t.Fatalf("C09: Run returned nil but the eagerly created component %s ran Init %d times (a failing callback there could never be reported)\n%s", mc.Name, n.Beh().InitCalls, desc)
+			}
+		}
 		// unsatisfied optional points are zero and harmless
 		if err := graph.CheckWiring(g, false); err != nil {
 			t.Fatalf("C09: %v\n%s", err, desc)
@@ -554,7 +587,7 @@ func genBase(t *rapid.T) *Base {
 		}
 	}
 	return &Base{S: s, CfgA: rapid.Bool().Draw(t, "cfga"), CfgB: rapid.Bool().Draw(t, "cfgb"),
-		QPair: rapid.Bool().Draw(t, "qpair"), Runners: rapid.IntRange(1, 3).Draw(t, "runners"), Loaders: rapid.IntRange(1, 2).Draw(t, "loaders"), Obs: rapid.IntRange(0, 2).Draw(t, "obs")}
+		QPair: rapid.Bool().Draw(t, "qpair"), ObsKind: rapid.IntRange(0, 2).Draw(t, "obskind"), Runners: rapid.IntRange(1, 3).Draw(t, "runners"), Loaders: rapid.IntRange(1, 2).Draw(t, "loaders"), Obs: rapid.IntRange(0, 2).Draw(t, "obs")}
 }
 
 // TestSingleFaults: for each drawn base, the clean run and EVERY single fault site.
